@@ -222,20 +222,29 @@ type FStore struct {
 }
 
 type fW struct {
-	s     *FStore
-	b, o  string
-	inner io.WriteCloser
-	buf   bytes.Buffer
+	s    *FStore
+	ctx  context.Context
+	b, o string
+	buf  bytes.Buffer
 }
 
-func (w *fW) Write(p []byte) (int, error) { w.buf.Write(p); return w.inner.Write(p) }
+// Write only collects the bytes: the object is written as a whole at Close, which is the write event. Nothing reaches
+// the inner store before that, so an injected error or a crash before the event has NO effect on any back end (on
+// storage/local the file is not even opened, hence not truncated) — the fault model's granularity is one object.
+func (w *fW) Write(p []byte) (int, error) { return w.buf.Write(p) }
 func (w *fW) Close() error {
-	// the object becomes visible at Close: that is the write event
 	seq, err := w.s.F.Enter("storage.Write:" + w.o)
 	if err != nil {
 		return err
 	}
-	err = w.inner.Close()
+	inner, err := w.s.Inner.Writer(w.ctx, w.b, w.o)
+	if err == nil {
+		if _, err = inner.Write(w.buf.Bytes()); err != nil {
+			inner.Close()
+		} else {
+			err = inner.Close()
+		}
+	}
 	if err == nil {
 		w.s.F.mu.Lock()
 		w.s.F.Writes = append(w.s.F.Writes, Write{Seq: seq, Object: w.o, Data: append([]byte(nil), w.buf.Bytes()...)})
@@ -268,11 +277,7 @@ func (s *FStore) Exists(ctx context.Context, b, o string) (bool, error) {
 	return ok, err
 }
 func (s *FStore) Writer(ctx context.Context, b, o string) (io.WriteCloser, error) {
-	w, err := s.Inner.Writer(ctx, b, o)
-	if err != nil {
-		return nil, err
-	}
-	return &fW{s: s, b: b, o: o, inner: w}, nil
+	return &fW{s: s, ctx: ctx, b: b, o: o}, nil
 }
 func (s *FStore) IsNotExists(err error) bool { return s.Inner.IsNotExists(err) }
 func (s *FStore) EnsureBucketExists(ctx context.Context, b string) error {
